@@ -801,6 +801,11 @@ def dict_method(I, st, ref, o: DictObj, name, args, kwargs, node):
             return o.items.pop(k)
         if len(args) > 1 and k not in o.items:
             return args[1]
+        if len(args) > 1:
+            I.ctx.frame_store(I, st, ref, node, name)
+            p = o.present.pop(k, True)
+            v = o.items.pop(k)
+            return ite(st, to_z3(p), v, args[1])
         raise OutOfSubset("dict.pop on conditional key")
     raise OutOfSubset(f"dict.{name}")
 
